@@ -104,7 +104,9 @@ func c19Ops() []c19Op {
 	ok := func(f func(c *message.IKEPayloadContainer)) func(c *message.IKEPayloadContainer) error {
 		return func(c *message.IKEPayloadContainer) error { f(c); return nil }
 	}
-	add("BuildNotification(spi4,data)", ok(func(c *message.IKEPayloadContainer) { c.BuildNotification(3, 16393, ca(univ.Pat(4, 1)), ca(univ.Pat(9, 2))) }),
+	add("BuildNotification(spi4,data)", ok(func(c *message.IKEPayloadContainer) {
+		c.BuildNotification(3, 16393, ca(univ.Pat(4, 1)), ca(univ.Pat(9, 2)))
+	}),
 		ref.Payload{T: ref.PNotify, B: 3, NType: 16393, SPI: univ.Pat(4, 1), Data: univ.Pat(9, 2)})
 	add("BuildNotification(nil,nil)", ok(func(c *message.IKEPayloadContainer) { c.BuildNotification(0, 1, nil, nil) }), ref.Payload{T: ref.PNotify, B: 0, NType: 1})
 	add("BuildCertificate", ok(func(c *message.IKEPayloadContainer) { c.BuildCertificate(4, ca(univ.Pat(33, 3))) }), ref.Payload{T: ref.PCERT, B: 4, Data: univ.Pat(33, 3)})
@@ -154,7 +156,9 @@ func c19Ops() []c19Op {
 		{Num: 1, Proto: 3, SPI: univ.Pat(4, 11), Tr: []ref.Transform{{Type: 1, ID: 12, HasAttr: true, TV: true, AType: 14, AValue: 256}, {Type: 3, ID: 12},
 			{Type: 3, ID: 2, HasAttr: true, AType: 300, AVar: univ.Pat(5, 12)}, {Type: 5, ID: 0}}},
 		{Num: 2, Proto: 1, Tr: []ref.Transform{{Type: 2, ID: 5}, {Type: 4, ID: 14}}}}})
-	add("BuildDeletePayload(esp,2)", ok(func(c *message.IKEPayloadContainer) { c.BuildDeletePayload(3, 4, 2, cu([]uint32{0x01020304, 0xfffffffe})) }),
+	add("BuildDeletePayload(esp,2)", ok(func(c *message.IKEPayloadContainer) {
+		c.BuildDeletePayload(3, 4, 2, cu([]uint32{0x01020304, 0xfffffffe}))
+	}),
 		ref.Payload{T: ref.PDelete, B: 3, SSize: 4, NSPI: 2, SPIs: []uint32{0x01020304, 0xfffffffe}})
 	add("BuildDeletePayload(ike)", ok(func(c *message.IKEPayloadContainer) { c.BuildDeletePayload(1, 0, 0, nil) }), ref.Payload{T: ref.PDelete, B: 1})
 	add("BuildEAP+Identity", ok(func(c *message.IKEPayloadContainer) {
